@@ -46,6 +46,9 @@ pub enum Placement {
     /// The one buffer of this source that all clients of the run share (same address
     /// in every client, possibly lexed by several of them at the same time).
     Shared,
+    /// The text lies across an address that is a multiple of 4 GiB (hence of every smaller
+    /// power of two): `permille` of its bytes are below the line. Junk text follows it.
+    Boundary { permille: u16, junk: u8 },
 }
 
 #[derive(Clone, Copy, Debug, PartialEq, Eq)]
@@ -127,24 +130,111 @@ pub struct Placed {
     buf: Arc<String>,
     from: usize,
     to: usize,
+    /// text copied into a mapped region instead (Placement::Boundary)
+    region: Option<(Region, usize)>,
 }
 
 impl AsRef<str> for Placed {
     fn as_ref(&self) -> &str {
+        if let Some((r, start)) = &self.region {
+            // SAFETY: `place` copied `to` bytes of valid UTF-8 to `start`, inside the mapping,
+            // which this value owns until it is dropped
+            #[allow(unsafe_code)]
+            unsafe {
+                return std::str::from_utf8_unchecked(std::slice::from_raw_parts((r.line - REGION_HALF + *start) as *const u8, self.to));
+            }
+        }
         &self.buf[self.from..self.to]
     }
+}
+
+impl Placed {
+    pub fn straddles_4gib(&self) -> bool {
+        self.region.is_some()
+    }
+}
+
+impl Drop for Placed {
+    fn drop(&mut self) {
+        if let Some((r, _)) = self.region.take() {
+            REGIONS.lock().unwrap_or_else(|e| e.into_inner()).free.push(r);
+        }
+    }
+}
+
+/// 1 MiB below and 1 MiB above an address that is a multiple of 4 GiB.
+const REGION_HALF: usize = 1 << 20;
+
+#[derive(Clone, Copy, Debug)]
+pub struct Region {
+    /// the multiple of 4 GiB in the middle of the mapping
+    line: usize,
+}
+
+struct Regions {
+    free: Vec<Region>,
+    next_k: usize,
+    failed: bool,
+}
+
+static REGIONS: Mutex<Regions> = Mutex::new(Regions { free: Vec::new(), next_k: 0x11, failed: false });
+
+#[cfg(all(target_os = "linux", target_pointer_width = "64"))]
+fn map_region(k: usize) -> Option<Region> {
+    extern "C" {
+        fn mmap(addr: *mut u8, len: usize, prot: i32, flags: i32, fd: i32, off: i64) -> *mut u8;
+    }
+    const PROT_RW: i32 = 1 | 2;
+    const MAP_PRIVATE: i32 = 2;
+    const MAP_ANONYMOUS: i32 = 0x20;
+    const MAP_FIXED_NOREPLACE: i32 = 0x10_0000;
+    let line = k << 32;
+    let want = (line - REGION_HALF) as *mut u8;
+    // SAFETY: a fresh anonymous mapping at an address nothing else uses (NOREPLACE)
+    #[allow(unsafe_code)]
+    let got = unsafe { mmap(want, 2 * REGION_HALF, PROT_RW, MAP_PRIVATE | MAP_ANONYMOUS | MAP_FIXED_NOREPLACE, -1, 0) };
+    if got == want {
+        Some(Region { line })
+    } else {
+        None
+    }
+}
+
+#[cfg(not(all(target_os = "linux", target_pointer_width = "64")))]
+fn map_region(_k: usize) -> Option<Region> {
+    None
+}
+
+fn take_region() -> Option<Region> {
+    let mut g = REGIONS.lock().unwrap_or_else(|e| e.into_inner());
+    if let Some(r) = g.free.pop() {
+        return Some(r);
+    }
+    if g.failed {
+        return None;
+    }
+    // a few attempts at successive multiples of 4 GiB from 68 GiB upwards
+    for _ in 0..64 {
+        let k = g.next_k;
+        g.next_k += 1;
+        if let Some(r) = map_region(k) {
+            return Some(r);
+        }
+    }
+    g.failed = true;
+    None
 }
 
 pub fn place(text: &str, p: Placement, shared: Option<&Arc<String>>) -> Placed {
     match p {
         Placement::Shared => match shared {
-            Some(b) => Placed { from: 0, to: b.len(), buf: b.clone() },
+            Some(b) => Placed { from: 0, to: b.len(), buf: b.clone(), region: None },
             None => place(text, Placement::Exact, None),
         },
         Placement::Exact => {
             let mut buf = String::with_capacity(text.len());
             buf.push_str(text);
-            Placed { from: 0, to: buf.len(), buf: Arc::new(buf) }
+            Placed { from: 0, to: buf.len(), buf: Arc::new(buf), region: None }
         }
         Placement::Slack { extra, junk } => {
             let tail = JUNK_TAILS[junk as usize % JUNK_TAILS.len()];
@@ -153,7 +243,7 @@ pub fn place(text: &str, p: Placement, shared: Option<&Arc<String>>) -> Placed {
             // leave junk in the spare capacity right after the text
             buf.push_str(tail);
             buf.truncate(text.len());
-            Placed { from: 0, to: buf.len(), buf: Arc::new(buf) }
+            Placed { from: 0, to: buf.len(), buf: Arc::new(buf), region: None }
         }
         Placement::Sub { pre, junk } => {
             let tail = JUNK_TAILS[junk as usize % JUNK_TAILS.len()];
@@ -165,7 +255,32 @@ pub fn place(text: &str, p: Placement, shared: Option<&Arc<String>>) -> Placed {
             buf.push_str(text);
             buf.push_str(tail);
             buf.push_str(tail);
-            Placed { from: pre, to: pre + text.len(), buf: Arc::new(buf) }
+            Placed { from: pre, to: pre + text.len(), buf: Arc::new(buf), region: None }
+        }
+        Placement::Boundary { permille, junk } => {
+            let tail = JUNK_TAILS[junk as usize % JUNK_TAILS.len()];
+            let n = text.len();
+            if n < 2 || n + 2 * tail.len() + 16 > REGION_HALF {
+                return place(text, Placement::Sub { pre: (permille % 17) as u8, junk }, None);
+            }
+            let Some(r) = take_region() else {
+                return place(text, Placement::Sub { pre: (permille % 17) as u8, junk }, None);
+            };
+            let below = (n * (permille as usize % 1001) / 1000).clamp(1, n - 1);
+            let start = REGION_HALF - below;
+            // SAFETY: start + n + 2 * tail.len() < 2 * REGION_HALF, inside the mapping `r`,
+            // which no other Placed uses until this one is dropped
+            #[allow(unsafe_code)]
+            unsafe {
+                let base = (r.line - REGION_HALF) as *mut u8;
+                if start >= 16 {
+                    std::ptr::copy_nonoverlapping(FILLER.as_ptr(), base.add(start - 16), 16);
+                }
+                std::ptr::copy_nonoverlapping(text.as_ptr(), base.add(start), n);
+                std::ptr::copy_nonoverlapping(tail.as_ptr(), base.add(start + n), tail.len());
+                std::ptr::copy_nonoverlapping(tail.as_ptr(), base.add(start + n + tail.len()), tail.len());
+            }
+            Placed { from: 0, to: n, buf: Arc::new(String::new()), region: Some((r, start)) }
         }
     }
 }
@@ -216,6 +331,7 @@ pub struct Stats {
     pub at_capacity_pushes: u64,
     pub knob_ops: u64,
     pub placement_ops: u64,
+    pub boundary_placements: u64,
     pub migrations: u64,
     pub drops: u64,
     pub shares: u64,
@@ -238,7 +354,7 @@ impl Stats {
             hook_events, yields, switches, switches_inside_lex, lex_ops, lex_completed,
             lex_overlapped, read_shared, read_concurrent_with_lex, crashes_fired,
             crash_checkpoint_live, crash_in_finalize, crash_at_capacity, crash_after_rollback,
-            shrinks_fired, at_capacity_pushes, knob_ops, placement_ops, migrations, drops,
+            shrinks_fired, at_capacity_pushes, knob_ops, placement_ops, boundary_placements, migrations, drops,
             shares, junk_runs, rollbacks, rollbacks_without_checkpoint, checkpoints,
             insert_tokens, budget_exceeded, lex_after_crash_same_thread, clone_walks
         );
@@ -252,7 +368,7 @@ impl Stats {
             hook_events, yields, switches, switches_inside_lex, lex_ops, lex_completed,
             lex_overlapped, read_shared, read_concurrent_with_lex, crashes_fired,
             crash_checkpoint_live, crash_in_finalize, crash_at_capacity, crash_after_rollback,
-            shrinks_fired, at_capacity_pushes, knob_ops, placement_ops, migrations, drops,
+            shrinks_fired, at_capacity_pushes, knob_ops, placement_ops, boundary_placements, migrations, drops,
             shares, junk_runs, rollbacks, rollbacks_without_checkpoint, checkpoints,
             insert_tokens, budget_exceeded, lex_after_crash_same_thread, clone_walks, max_mode_depth,
             max_steps_per_byte_x100
@@ -266,7 +382,7 @@ impl Stats {
             hook_events, yields, switches, switches_inside_lex, lex_ops, lex_completed,
             lex_overlapped, read_shared, read_concurrent_with_lex, crashes_fired,
             crash_checkpoint_live, crash_in_finalize, crash_at_capacity, crash_after_rollback,
-            shrinks_fired, at_capacity_pushes, knob_ops, placement_ops, migrations, drops,
+            shrinks_fired, at_capacity_pushes, knob_ops, placement_ops, boundary_placements, migrations, drops,
             shares, junk_runs, rollbacks, rollbacks_without_checkpoint, checkpoints,
             insert_tokens, budget_exceeded, lex_after_crash_same_thread, clone_walks, max_mode_depth,
             max_steps_per_byte_x100
@@ -860,6 +976,9 @@ fn do_lex(
         }
         if lex.placement != Placement::Exact {
             st.stats.placement_ops += 1;
+        }
+        if placed.straddles_4gib() {
+            st.stats.boundary_placements += 1;
         }
         if st.in_lex.iter().enumerate().any(|(c, &b)| b && c != me) {
             st.stats.lex_overlapped += 1;
